@@ -58,6 +58,8 @@ pub enum Step {
     /// View entries for other node ids.
     WriteAcl { ctx: Ctx, n: u8 },
     RemoveFabric { ctx: Ctx, idx: u8 },
+    /// OperationalCredentials::SetVIDVerificationStatement(vendor id 0xFFF2 + n) on the accessing fabric.
+    SetVid { ctx: Ctx, n: u8 },
     /// Write GroupKeyManagement::GroupKeyMap of the writer's fabric: group `0x0100 + g` -> key set 0x01A3.
     GroupKeyMap { ctx: Ctx, g: u8 },
     /// Groups::AddGroup(endpoint 1, group `0x0100 + g`, name "grp-<name>"): adds the endpoint
@@ -763,6 +765,10 @@ async fn do_step<C: Crypto, G: Crypto>(
                 // AccessControl (0x1F) ACL (0)
                 ctl.write_attr(v, 0, 0x1F, 0, &entries.as_slice()).await
             }
+            None => no_ctx,
+        },
+        Step::SetVid { ctx, n } => match via(*ctx) {
+            Some(v) => ctl.set_vid_verification(v, 0xFFF2 + *n as u16).await,
             None => no_ctx,
         },
         Step::GroupKeyMap { ctx, g } => match via(*ctx) {
